@@ -37,8 +37,17 @@ def tzif(zone, footer=b""):
 
 class Native:
     def __init__(self, zone):
-        img = tzif(zone)
-        self.h = lib().tzr_load(img, ctypes.c_size_t(len(img)))
+        if any(abs(o) >= 86400 for o in zone["off"]):
+            # offsets of exactly +-24h cannot go through a TZif image (Load rejects them; only built-in fixed zones have them)
+            N, T = zone["N"], zone["T"]
+            chars = zone.get("chars") or bytes((65 + (i % 26)) if (i % 4) != 3 else 0 for i in range(256))
+            lib().tzr_build.restype = ctypes.c_void_p
+            self.h = lib().tzr_build(N, (ctypes.c_longlong * N)(*zone["unix"]), (ctypes.c_ubyte * N)(*zone["type"]), T, (ctypes.c_longlong * T)(*zone["off"]),
+                                     (ctypes.c_ubyte * T)(*[1 if d else 0 for d in zone["dst"]]), (ctypes.c_ubyte * T)(*[a & 255 for a in zone["abbr"]]),
+                                     zone["default"], chars, len(chars))
+        else:
+            img = tzif(zone)
+            self.h = lib().tzr_load(img, ctypes.c_size_t(len(img)))
         self.zone = zone
         if self.h:
             lib().tzr_hints(ctypes.c_void_p(self.h), ctypes.c_size_t(zone.get("hint1", 0) % (1 << 64)), ctypes.c_size_t(zone.get("hint2", 0) % (1 << 64)))
